@@ -21,7 +21,8 @@ FAMILIES = {
                 devsigs=["C17/retransmit-no-dup", "C17/pubrel-unanswered", "C17/publish-result-vs-ack"],
                 devmax=7, quick_sample=900, sim=(60, 30)),
     "C27": dict(cfgs=[("MC_ClientLib_C27.cfg", 7, 8), ("MC_ClientLib_C27u.cfg", 10, 11, "all"),
-                      ("MC_ClientLib_C27q.cfg", 13, 15, "all")], devs=[], quick_sample=150, sim=(60, 30),
+                      ("MC_ClientLib_C27q.cfg", 13, 15, "all"),
+                      ("MC_ClientLib_C27w.cfg", 15, 16, "all")], devs=[], quick_sample=150, sim=(60, 30),
                 repeat=1, repeat_thorough=3, vectors=True),
     "C28": dict(cfgs=[("MC_ClientLib_C28.cfg", 5, 6), ("MC_ClientLib_C28ka.cfg", 5, 6),
                       ("MC_ClientLib_C28r.cfg", 5, 6, "all"),
